@@ -200,6 +200,8 @@ def gen_step(w, rng):
         st = {"op": "ds_write", "path": path, "mode": "a", "spec": spec} if spec else None
     elif r < 0.62:
         st = {"op": "json_rt", "arr": V.gen_array_spec(rng, dict(cfg, dtypes=["f8", "i8", "O"], mutable_meta=True))}
+        if rng.random() < 0.2:
+            st["null_meta"] = rng.choice(["comment", "units"])
     elif r < 0.70:
         st = _gen_reject(w, rng)
     elif r < 0.75 and existing:
@@ -768,6 +770,8 @@ def x_read(w, s):
 def x_json_rt(w, s):
     from dimarray import DimArray
     a = V.build_array(s["arr"])
+    if s.get("null_meta"):
+        a.attrs[s["null_meta"]] = None       # JSON null is JSON-representable metadata
     before = V.snap(a)
     try:
         txt = a.to_json()
